@@ -50,6 +50,14 @@ def cases(tier, seed):
             if d["payload"] == "hostile" and c.get("devlevel") is None and nf != 2:
                 continue
         out.append({"desc": d, "maxlen": 3 if tier == "quick" else 4, "w": nf ** 2 * len(d["levels"])})
+    # twelve fields: the component count changes its number of digits between input and output
+    for nd in (2, 3):
+        m = scope.named_meshes(nd)[2]
+        d = dict(m)
+        d.update(list(scope.geometries(nd))[seed % 6])
+        d.update({"fields": ["f%d" % i for i in range(12)], "payload": "signed", "seed": seed,
+                  "layout": [scope.layouts(len(b), 'idrev')[3 if len(b) == 3 else -1] for b in m["levels"]]})
+        out.append({"desc": d, "maxlen": 1, "w": 30, "wide": True})
     return out
 
 
@@ -66,7 +74,10 @@ def run_case(case, workdir):
     before = tree_digest(path)
     k = 0
     trivial_layout = all(scope.layout_is_trivial(l) for l in scope_layouts(desc))
-    for sel in selections(names, case["maxlen"]):
+    sels = list(selections(names, case["maxlen"]))
+    if case.get("wide"):
+        sels = [["all"], names[9:12] + names[0:1], names[2:12], [names[11]], names[::-1]]
+    for sel in sels:
         if sel != ["all"] and len(set(names)) != len(names):
             continue
         for limit in [None] + list(range(ref.nlevels)):
